@@ -94,6 +94,11 @@ static Run run_case(const List &L, const Opt &o, int mode, bool detail)
     g_out = (rtosc_arg_val_t *)g_oarena.hi() - (count + GUARD);
     memset(g_out, pf::SENT, (count + GUARD) * sizeof(rtosc_arg_val_t));
     memset((char *)g_out - FRONT, guard::CANARY, FRONT);
+    // the memory in front of the destination belongs to the caller: here it holds a well-formed value (left over from an earlier scan, say), of a
+    // type that rotates with the text - the scanner has no business looking at it
+    rtosc_arg_val_t before; memset(&before, 0, sizeof before);
+    { static const char BT[] = "ihcfdTs"; before.type = BT[vp::fnv(buf, strlen(buf)) % 7]; if(before.type == 'f') before.val.f = 1.0f; else if(before.type == 'd') before.val.d = 1.0; else if(before.type == 's') before.val.s = "x"; else if(before.type == 'h') before.val.h = 1; else before.val.i = 1; }
+    g_out[-1] = before;
     memset(g_scratch, 0x7f, SCR);
     char addr[32]; memset(addr, 0x7f, sizeof addr);
     size_t rd = 0;
@@ -108,7 +113,7 @@ static Run run_case(const List &L, const Opt &o, int mode, bool detail)
         if(sig == SIGSEGV && pf::g_fault_addr >= (void *)g_oarena.hi() && pf::g_fault_addr < (void *)(g_oarena.hi() + 4096)) { r.c = SLOTS; r.detail = "checker announced " + std::to_string(count) + " slots, scanner ran more than " + std::to_string(GUARD) + " slots past them"; }
         return r;
     }
-    if(!all_bytes((char *)g_out - FRONT, FRONT, guard::CANARY)) { r.c = SLOTS; r.detail = "scanner wrote in front of the output array"; return r; }
+    if(!all_bytes((char *)g_out - FRONT, FRONT - sizeof(rtosc_arg_val_t), guard::CANARY) || memcmp(&g_out[-1], &before, sizeof before)) { r.c = SLOTS; r.detail = "scanner wrote in front of the output array"; return r; }
     r.rng = has_range(g_out, count);
     int touched_end = count;
     if(!all_bytes(g_out + count, GUARD * sizeof(rtosc_arg_val_t), pf::SENT)) for(int k = count; k < count + GUARD; ++k) if(!pf::slot_untouched(g_out[k])) touched_end = k + 1;
